@@ -254,6 +254,19 @@ func RunC01(e *core.Env) int {
 			rep.Sample(map[string]any{"case": c.S.ID, "setup": core.Trunc(c.S.Files[c.S.Setup], 1200), "output_excerpt": core.Trunc(string(c.Out), 1200)}, 2)
 		}
 	})
+	// every other profile of the framework also feeds the C01 monitors (different biases: layouts,
+	// notations, destination shapes, error-heavy, hooks, slices, interface selection, carry-over)
+	nx := 80
+	if e.Tier == "thorough" {
+		nx = 1500
+	}
+	for _, prof := range []string{"match", "notate", "shapes", "errs", "hooks", "slices", "layout", "select", "carry"} {
+		prof := prof
+		runBroadBatches(e, rep, prof, nx, 200, func(c *CaseResult) {
+			c01Judge(rep, c)
+			rep.Histo("profile_outputs", prof)
+		})
+	}
 	return rep.Finish()
 }
 
